@@ -248,14 +248,13 @@ Section Engine.
     end.
 End Engine.
 
-(* What `await model.trigger(name)` yields.  Machine._get_trigger is inherited from core.py
-   and is a plain function: for an unknown event name it raises AttributeError or — when the
-   state ignores invalid triggers — returns the plain value False, which cannot be awaited
-   (TypeError at the await).  The model mirrors that. *)
+(* What `await model.trigger(name)` yields.  AsyncMachine._get_trigger is a coroutine function
+   that calls the inherited Machine._get_trigger and awaits its result only when that is
+   awaitable: for an unknown event name the base function raises AttributeError or — when the
+   state ignores invalid triggers — returns the plain value False, which is handed through. *)
 Inductive aresult : Type :=
 | AwRet (b : bool)
-| AwExn (e : exn)
-| AwNotAwaitable.
+| AwExn (e : exn).
 
 Definition aresult_of (r : exn + bool) : aresult :=
   match r with inl e => AwExn e | inr b => AwRet b end.
@@ -268,7 +267,7 @@ Definition atrigger (mc : machine) (rp : cbid -> reply) (susp : cbid -> nat) (c 
     | None =>
         match get_state mc s with
         | None => ([], s, AwExn ValueError)
-        | Some sd => if ignores mc sd then ([], s, AwNotAwaitable) else ([], s, AwExn AttributeError)
+        | Some sd => if ignores mc sd then ([], s, AwRet false) else ([], s, AwExn AttributeError)
         end
     end.
 
@@ -410,9 +409,6 @@ Section Queue.
                     (* clear this deque, re-raise *)
                     Some ([mkAB h tr r], Some e,
                           mkAW (aw_states w2) (qset (aw_queues w2) key []) (aw_next w2))
-                | AwNotAwaitable =>
-                    (* cannot happen: queue entries are partials of AsyncEvent._trigger *)
-                    Some ([mkAB h tr r], None, w2)
                 end
             end
         end
@@ -425,7 +421,7 @@ Section Queue.
     let w0 := mkAW (aw_states w) (aw_queues w) (S (aw_next w)) in
     match lookup (m_events mc) e with
     | None =>
-        (* Machine._get_trigger, before any queue is touched *)
+        (* AsyncMachine._get_trigger -> Machine._get_trigger, before any queue is touched *)
         match astep w0 q with (tr, r, w1) => Some ([mkAB q tr r], r, w1) end
     | Some _ =>
         match md with
